@@ -100,7 +100,15 @@ func c20Gen(r *kit.Rng) *sched.Scenario {
 				})
 				nm := func() string { return names[r.Intn(len(names))] }
 				q := ""
-				switch r.Intn(11) {
+				switch r.Intn(14) {
+				case 11:
+					// a rejected multi-step expression (an error is a result too): whatever
+					// parser state it leaves behind must not reach the next request
+					q = "where=" + r.Pick([]string{nm() + "/" + nm() + "%3D%3D'x'", nm() + "/" + nm() + "%3D'unterminated", nm() + "/zz:" + nm() + "%3D1", nm() + "/" + nm() + "/"})
+				case 12:
+					q = "where=" + nm() + "/" + nm() + "%3D'x'"
+				case 13:
+					q = "filter=" + nm() + "%3D'x'&fields=" + nm()
 				case 6:
 					q = "fields=" + nm() + ";" + nm()
 				case 7:
@@ -432,6 +440,13 @@ func c20Batch(c *Check, tier string) int {
 		return 2
 	}
 	fmt.Printf("C20: schedules=%d distinct=%d violations=%d known=%d wall=%.1fs\n  counters: %s\n", len(items), len(prints), nviol, len(knownSeen), wall, stats.String())
+	if harness > 0 && exit == 1 {
+		// violations were found and reported; that a scenario also behaved differently
+		// on repetition is then most likely the library's own doing (a pool, a cache
+		// filled by whoever comes first), not a reason to discard the report
+		fmt.Fprintln(os.Stderr, "note: the run also saw scenarios that were not repeatable across GOMAXPROCS; the violations above stand")
+		return 1
+	}
 	if harness > 0 {
 		return 2
 	}
